@@ -6,7 +6,7 @@
    Theorems quantify over every codec that satisfies the stated law, every configuration, framing
    (Content-Length / chunked / until-EOF), segmentation, close point and consumer schedule (`evs`), and every
    recursion fuel.  `init c t len enc` is the state right after the message head was parsed. *)
-From AV Require Import Lib.Base Generated.DecodeGen Model.Decode Proofs.DecodeBasic Proofs.DecodeCommon Proofs.DecodeBound Proofs.DecodeProgress Proofs.DecodeHandler Proofs.DecodeInst.
+From AV Require Import Lib.Base Generated.DecodeGen Model.Decode Proofs.DecodeBasic Proofs.DecodeCommon Proofs.DecodeBound Proofs.DecodeProgress Proofs.DecodeHandler Proofs.DecodeInst Proofs.DecodeServer.
 
 (* ---- bounded memory ------------------------------------------------------------------------------
    Whatever the compression ratio: if one decompress_sync(data, max_length = m) call returns at most capf m
@@ -192,3 +192,43 @@ Example C09_client_max_size_example :
   request_read 5 [[1;2;3]; [4;5;6]; [7]] [] 0 = (None, 6).
 Proof. vm_compute. split; reflexivity. Qed.
 Print Assumptions C09_client_max_size_example.
+
+(* ---- graceful shutdown does not starve the request being handled ------------------------------------
+   RequestHandler.data_received on a closing connection (`_close` / `_force_close`, set by
+   Server.pre_shutdown() -> RequestHandler.close()) goes through a gate translated conjunct by conjunct from the
+   source (dg_srv_closing_feeds).  For the request being handled, while its body is not at EOF and the
+   connection is alive, the gate lets EVERY call through - in particular the empty one by which
+   BaseProtocol.resume_reading() pushes on input the paused parser / decompressor holds - so the server entry
+   points coincide with the client-side ones that C09_progress / C09_bounded are about, whether or not a
+   shutdown has begun.  (A gate that tested `data` would starve a paused compressed body: seeded change C09-7.) *)
+Theorem C09_shutdown_keeps_feeding_body :
+  forall (H : Type) (hnew : N -> H) (hstep : H -> bytes -> N -> option (option (H * bytes)))
+         (havail heof : H -> bool) (hflush : H -> option bytes) fuel closing_conn (s : st H) data,
+    connected (pr s) = true -> parser_alive (pr s) = true -> reof (re s) = false ->
+    srv_data_received H hnew hstep havail heof hflush fuel closing_conn true false false s data
+    = parser_feed H hnew hstep havail heof hflush fuel s data.
+Proof. exact srv_feed_is_feed. Qed.
+Print Assumptions C09_shutdown_keeps_feeding_body.
+
+Theorem C09_shutdown_resume_is_resume :
+  forall (H : Type) (hnew : N -> H) (hstep : H -> bytes -> N -> option (option (H * bytes)))
+         (havail heof : H -> bool) (hflush : H -> option bytes) fuel closing_conn (s : st H),
+    connected (pr s) = true -> parser_alive (pr s) = true -> reof (re s) = false ->
+    srv_resume_reading H hnew hstep havail heof hflush fuel closing_conn true false false s
+    = resume_reading H hnew hstep havail heof hflush fuel s.
+Proof. exact srv_resume_is_resume. Qed.
+Print Assumptions C09_shutdown_resume_is_resume.
+
+(* and nothing else is accepted: with no request being handled a closing connection ignores what arrives *)
+Theorem C09_closing_idle_ignores_input :
+  forall (H : Type) (hnew : N -> H) (hstep : H -> bytes -> N -> option (option (H * bytes)))
+         (havail heof : H -> bool) (hflush : H -> option bytes) fuel custom_pp upgraded (s : st H) data,
+    srv_data_received H hnew hstep havail heof hflush fuel true false custom_pp upgraded s data = s.
+Proof. exact srv_closing_idle_ignores. Qed.
+Print Assumptions C09_closing_idle_ignores_input.
+
+Example C09_shutdown_example :
+  let s := core (fst (toy_run 1000 w_bomb_init [EvData w_bomb; EvOp OpReadAny])) in
+  connected (pr s) = true /\ parser_alive (pr s) = true /\ reof (re s) = false /\ has_more (pr s) = true.
+Proof. exact shutdown_witness. Qed.
+Print Assumptions C09_shutdown_example.
